@@ -92,7 +92,7 @@ impl Prop for C02 {
     fn cases(&self, tier: Tier) -> u32 {
         match tier {
             Tier::Quick => 600,
-            Tier::Thorough => 10_000,
+            Tier::Thorough => 5_000,
         }
     }
     fn strategy(&self, tier: Tier) -> BoxedStrategy<Case> {
